@@ -25,6 +25,8 @@ for dp, _, fs in sorted(os.walk(base)):
                     depth += lines[j].count("(") + lines[j].count("{") + lines[j].count("[") - lines[j].count(")") - lines[j].count("}") - lines[j].count("]")
                     if depth <= 0 and lines[j].rstrip().endswith(";"):
                         break
+                    if depth <= 0 and j + 1 < len(lines) and lines[j + 1].startswith("}"):
+                        break       # a tail expression: the handler's value
                     j += 1
                     if j >= len(lines):
                         break
